@@ -236,7 +236,23 @@ func (p *isoPool) forget(c *isoChild) {
 }
 
 // call evaluates one input in a child and translates the answer: nil / error (rejected) / childPanic (panic in the child, or the child ended).
+// A child that ended is a verdict only when another child ends on the same input as well (something else on the machine can end a process).
 func (p *isoPool) call(in input) error {
+	err, ended := p.attempt(in)
+	if !ended {
+		return err
+	}
+	err2, again := p.attempt(in)
+	if again {
+		p.h.r.Count("child_process_exits", 1)
+	} else {
+		p.h.r.Inconclusive(fmt.Sprintf("%s: a child process ended while evaluating an input but another child returned for the same input (%s)", p.name, trunc([]byte(err.Error()), 300)))
+	}
+	return err2
+}
+
+// attempt: one input, one child. ended = the child process ended while the input was outstanding.
+func (p *isoPool) attempt(in input) (result error, ended bool) {
 	p.mu.Lock()
 	var c *isoChild
 	if n := len(p.idle); n > 0 {
@@ -247,7 +263,7 @@ func (p *isoPool) call(in input) error {
 		var err error
 		if c, err = p.spawn(); err != nil {
 			p.h.r.Fatalf("%v", err)
-			return err
+			return err, false
 		}
 	}
 	req := isoReq{Data: in.data}
@@ -273,7 +289,6 @@ func (p *isoPool) call(in input) error {
 		p.mu.Lock()
 		p.exits++
 		p.mu.Unlock()
-		p.h.r.Count("child_process_exits", 1)
 		text := c.out.String()
 		top, repo := stackTextSite(text)
 		if strings.Contains(text, "fatal error:") && !strings.Contains(text, "panic:") {
@@ -288,18 +303,18 @@ func (p *isoPool) call(in input) error {
 		}
 		return childPanic{outcome{panicked: true, pfunc: top, repo: repo,
 			pval:  firstLineWith(text, "fatal error:", "panic:") + " [child process ended while evaluating this input: " + status + "]",
-			stack: headStr(text, 6000)}}
+			stack: headStr(text, 6000)}}, true
 	}
 	p.mu.Lock()
 	p.idle = append(p.idle, c)
 	p.mu.Unlock()
 	switch resp.Result {
 	case "ok":
-		return nil
+		return nil, false
 	case "panic":
-		return childPanic{outcome{panicked: true, pval: resp.PVal, pfunc: resp.PFunc, repo: resp.Repo, stack: resp.Stack}}
+		return childPanic{outcome{panicked: true, pval: resp.PVal, pfunc: resp.PFunc, repo: resp.Repo, stack: resp.Stack}}, false
 	default:
-		return errors.New(resp.Err)
+		return errors.New(resp.Err), false
 	}
 }
 
